@@ -47,8 +47,14 @@ def _is_del_mark(val) -> bool:
 
 def _node_is_del_mark(node) -> bool:
     """Return whether node is marking a deleted group/dataset/attribute value."""
-    val = node[()] if isinstance(node, h5py.Dataset) else node
-    return _is_del_mark(val)
+    if isinstance(node, h5py.Dataset):
+        # only a scalar of a single opaque byte can be the mark
+        # (avoid loading each dataset just to find that out!)
+        dt = node.dtype
+        if node.shape != () or dt.kind != "V" or dt.itemsize != 1:
+            return False
+        node = node[()]
+    return _is_del_mark(node)
 
 
 # attribute key marking group substitution (instead of pass-through default for groups)
